@@ -5,6 +5,7 @@ import (
 	"go/constant"
 	"go/token"
 	"go/types"
+	"sort"
 	"strings"
 
 	"golang.org/x/tools/go/ssa"
@@ -13,7 +14,7 @@ import (
 func init() {
 	register(&Prop{
 		ID:          "C18",
-		Decided:     "(1) guarded-by: the mutable shared fields of Stream, the five windows, Watermark, cep.Engine, analyticFieldEngine, ExprBridge, FunctionRegistry, MemoryTableSource and tableStore are accessed under their mutex in all API-reachable code (writes exclusively), no field is accessed both through sync/atomic and plainly, and the lock-acquisition graph is acyclic with no re-acquisition of a held lock; (2) no user sink is invoked, directly or through a function that runs sinks synchronously, while a lock is held; no blocking channel operation without a cancel/timeout/default alternative is performed under a lock; (3) each go statement: blocking loops have a cancellation case, blocking operations have an alternative, WaitGroup.Add precedes the go (or is done by the registered adder), goroutines that can run sinks are joined by Stop; Start's stopped-check and lifecycle.Add are serialised with Stop's flag under startMu; (4) Stop: the CAS on stopped dominates close(done) (idempotent, close-once), teardown order close(done) -> Window.Stop -> dataChan=nil -> waitLifecycle -> cep.Stop -> Flush -> flush delivery -> tables.closeAll, the input channel is never closed, initChan closes are probe-guarded under the window lock; (5) Emit after Stop: every blocking send on the input buffer has a done arm; (6) panic containment: every sink invocation and processItem run under a deferred recover. Also: consumer loops of package stream hand each received item to a function with its own deferred recover (a recover around the loop ends it at the first panic); Process starts the goroutine that Start counted in lifecycle on every path (or took the branch where the condition is false). Also: a mutex acquired in a function that runs under a deferred recover (its own or a synchronous caller's) and held across a call that can run user-supplied code (expr-lang programs, registered functions, callbacks) is released by a deferred Unlock (locks/released-on-recovered-panic): a contained panic cannot leave it locked.",
+		Decided:     "(1) guarded-by: the mutable shared fields of Stream, the five windows, Watermark, cep.Engine, analyticFieldEngine, ExprBridge, FunctionRegistry, MemoryTableSource and tableStore are accessed under their mutex in all API-reachable code (writes exclusively), no field is accessed both through sync/atomic and plainly, and the lock-acquisition graph is acyclic with no re-acquisition of a held lock; (2) no user sink is invoked, directly or through a function that runs sinks synchronously, while a lock is held; no blocking channel operation without a cancel/timeout/default alternative is performed under a lock; (3) each go statement: blocking loops have a cancellation case, blocking operations have an alternative, WaitGroup.Add precedes the go (or is done by the registered adder), goroutines that can run sinks are joined by Stop; Start's stopped-check and lifecycle.Add are serialised with Stop's flag under startMu; (4) Stop: the CAS on stopped dominates close(done) (idempotent, close-once), teardown order close(done) -> Window.Stop -> dataChan=nil -> waitLifecycle -> cep.Stop -> Flush -> flush delivery -> tables.closeAll, the input channel is never closed, initChan closes are probe-guarded under the window lock; (5) Emit after Stop: every blocking send on the input buffer has a done arm; (6) panic containment: every sink invocation and processItem run under a deferred recover. Also: consumer loops of package stream hand each received item to a function with its own deferred recover (a recover around the loop ends it at the first panic); Process starts the goroutine that Start counted in lifecycle on every path (or took the branch where the condition is false). Also: a mutex acquired in a function that runs under a deferred recover (its own or a synchronous caller's) and held across a call that can run user-supplied code (expr-lang programs, registered functions, callbacks) is released by a deferred Unlock (locks/released-on-recovered-panic): a contained panic cannot leave it locked. Also: the period of every time.NewTicker in the module is shown positive from the code (positive constants, clamps and guards against a positive bound, fields all of whose stores store such values, parameters all of whose arguments are such values; integer division is not positive) — a zero or negative period panics in a goroutine that has no recover (fnsafe/ticker-period-positive).",
 		NotDecided:  "absence of data races in general (this is a lockset argument over a type-based lock abstraction, not a happens-before proof), bounded Stop latency, goroutine counts, the behaviour of the grace timeout, window trigger goroutines and Watermark.updateLoop being cancelled but not joined by Stop (they do not run sinks).",
 		Assumptions: []string{"lock identity is (struct type, mutex field): two objects of one type are not distinguished"},
 		Run:         runC18,
@@ -915,4 +916,271 @@ func (p *posProver) clampedAfterStore(st *ssa.Store, f *types.Var, d int) bool {
 		}
 	}
 	return false
+}
+
+// ---------------------------------------------------------------- allocation sizes
+
+// allocSizeLeaves: the leaves a make() size is computed from, through arithmetic, conversions, phis,
+// locals, fields (all stores) and parameters (all arguments): "const", "len" (length/capacity of
+// existing data), "bounded" (checked against a constant upper bound on the way), or a description of
+// anything else.
+func (a *A) allocSizeLeaves(v ssa.Value, at *ssa.BasicBlock, d int, seen map[ssa.Value]bool, out map[string]bool) {
+	if v == nil || seen[v] {
+		return
+	}
+	seen[v] = true
+	if d > 10 {
+		out["trace depth exceeded"] = true
+		return
+	}
+	if _, ok := v.(*ssa.Const); ok {
+		out["const"] = true
+		return
+	}
+	// v <= C / v < C on the way (or v > C leading away)
+	if at != nil {
+		for _, g := range guardsOf(at) {
+			cond, sense := g.Cond, g.Sense
+			for {
+				u, ok := cond.(*ssa.UnOp)
+				if !ok || u.Op != token.NOT {
+					break
+				}
+				cond, sense = u.X, !sense
+			}
+			if bo, ok := cond.(*ssa.BinOp); ok && bo.X == v {
+				if _, isK := bo.Y.(*ssa.Const); isK {
+					if ((bo.Op == token.LSS || bo.Op == token.LEQ) && sense) || ((bo.Op == token.GTR || bo.Op == token.GEQ) && !sense) {
+						out["bounded"] = true
+						return
+					}
+				}
+			}
+		}
+	}
+	switch x := v.(type) {
+	case *ssa.Call:
+		if b, ok := x.Call.Value.(*ssa.Builtin); ok {
+			switch b.Name() {
+			case "len", "cap":
+				out["len"] = true
+				return
+			case "min":
+				// bounded if any operand is a constant
+				for _, arg := range x.Call.Args {
+					if _, ok := arg.(*ssa.Const); ok {
+						out["bounded"] = true
+						return
+					}
+				}
+			}
+		}
+		if sc := x.Call.StaticCallee(); sc != nil && sc.Pkg != nil && (sc.Pkg.Pkg.Path() == modPath+"/utils/cast" || sc.Pkg.Pkg.Path() == "strconv") {
+			out["user-number "+sc.Pkg.Pkg.Name()+"."+sc.Name()] = true
+			return
+		}
+		if sc := x.Call.StaticCallee(); sc != nil && a.fnInModule(sc) && sc.Blocks != nil && d < 6 {
+			for _, b := range sc.Blocks {
+				if ret, ok := b.Instrs[len(b.Instrs)-1].(*ssa.Return); ok && len(ret.Results) > 0 {
+					a.allocSizeLeaves(ret.Results[0], b, d+1, seen, out)
+				}
+			}
+			return
+		}
+		out["result of "+x.Call.String()] = true
+	case *ssa.BinOp:
+		a.allocSizeLeaves(x.X, at, d+1, seen, out)
+		if x.Op != token.SUB && x.Op != token.QUO && x.Op != token.REM && x.Op != token.SHR {
+			// x - y, x / y, x % y, x >> y are no larger than x for the non-negative counts sizes are made of
+			a.allocSizeLeaves(x.Y, at, d+1, seen, out)
+		}
+	case *ssa.Convert:
+		a.allocSizeLeaves(x.X, at, d+1, seen, out)
+	case *ssa.ChangeType:
+		a.allocSizeLeaves(x.X, at, d+1, seen, out)
+	case *ssa.Phi:
+		for i, e := range x.Edges {
+			// clamp: the edge taken when `e > C` was false
+			pred := x.Block().Preds[i]
+			a.allocSizeLeaves(e, pred, d+1, seen, out)
+		}
+	case *ssa.Extract:
+		out["result of "+x.Tuple.String()] = true
+	case *ssa.UnOp:
+		if x.Op != token.MUL {
+			a.allocSizeLeaves(x.X, at, d+1, seen, out)
+			return
+		}
+		switch ad := x.X.(type) {
+		case *ssa.FieldAddr:
+			st := derefStruct(ad.X.Type())
+			if st == nil {
+				out["field load"] = true
+				return
+			}
+			f := st.Field(ad.Field)
+			n := 0
+			for _, fn := range a.ModFuncs {
+				if fn.Blocks == nil {
+					continue
+				}
+				for _, s := range storesToField(fn, f) {
+					n++
+					a.allocSizeLeaves(s.Val, s.Block(), d+1, seen, out)
+				}
+			}
+			if n == 0 {
+				out["field "+f.Name()+" set by the caller of the API"] = true
+			}
+		case *ssa.Alloc:
+			allInstrs(ad.Parent(), func(in ssa.Instruction) {
+				if s, ok := in.(*ssa.Store); ok && s.Addr == ssa.Value(ad) {
+					a.allocSizeLeaves(s.Val, s.Block(), d+1, seen, out)
+				}
+			})
+		default:
+			out["load "+x.String()] = true
+		}
+	case *ssa.Parameter:
+		fn := x.Parent()
+		idx := -1
+		for i, q := range fn.Params {
+			if q == x {
+				idx = i
+			}
+		}
+		node := a.CG().Nodes[fn]
+		if node == nil || len(node.In) == 0 || idx < 0 {
+			out["parameter "+x.Name()+" of "+fname(fn)] = true
+			return
+		}
+		for _, e := range node.In {
+			cc := e.Site.Common()
+			args := cc.Args
+			if cc.IsInvoke() {
+				args = append([]ssa.Value{cc.Value}, args...)
+			}
+			if idx < len(args) && a.fnInModule(e.Caller.Func) {
+				a.allocSizeLeaves(args[idx], e.Site.Block(), d+1, seen, out)
+			}
+		}
+	default:
+		out[fmt.Sprintf("%T", v)] = true
+	}
+}
+
+func (a *A) surveyAllocSizes() {
+	for _, fn := range a.ModFuncs {
+		if fn.Blocks == nil {
+			continue
+		}
+		allInstrs(fn, func(in ssa.Instruction) {
+			var sizes []ssa.Value
+			switch x := in.(type) {
+			case *ssa.MakeSlice:
+				sizes = []ssa.Value{x.Len, x.Cap}
+			case *ssa.MakeChan:
+				sizes = []ssa.Value{x.Size}
+			case *ssa.MakeMap:
+				if x.Reserve != nil {
+					sizes = []ssa.Value{x.Reserve}
+				}
+			default:
+				return
+			}
+			out := map[string]bool{}
+			for _, s := range sizes {
+				a.allocSizeLeaves(s, in.Block(), 0, map[ssa.Value]bool{}, out)
+			}
+			delete(out, "const")
+			delete(out, "len")
+			delete(out, "bounded")
+			if len(out) > 0 {
+				fmt.Printf("ALLOC %s %s: %v\n", a.pos(in.Pos()), fname(fn), sortedKeys(out))
+			}
+		})
+	}
+}
+
+// ruleAllocBoundedByData: a make() whose size is a number converted from query text or an untyped
+// value (utils/cast, strconv: CountingWindow(N), LIMIT, ...) allocates before a single row has
+// arrived — CountingWindow(10000000000000) made Execute panic with "makeslice: cap out of range", a
+// merely large N allocates N rows' worth of memory up front. Such a size is accepted only when it was
+// checked against a constant upper bound, or when the make is guarded by a comparison showing that as
+// many items already exist (count >= N).
+func (a *A) ruleAllocBoundedByData() int {
+	n := 0
+	for _, fn := range a.ModFuncs {
+		if fn.Blocks == nil {
+			continue
+		}
+		allInstrs(fn, func(in ssa.Instruction) {
+			var sizes []ssa.Value
+			switch x := in.(type) {
+			case *ssa.MakeSlice:
+				sizes = []ssa.Value{x.Len, x.Cap}
+			case *ssa.MakeChan:
+				sizes = []ssa.Value{x.Size}
+			case *ssa.MakeMap:
+				if x.Reserve != nil {
+					sizes = []ssa.Value{x.Reserve}
+				}
+			default:
+				return
+			}
+			for _, sz := range sizes {
+				out := map[string]bool{}
+				a.allocSizeLeaves(sz, in.Block(), 0, map[ssa.Value]bool{}, out)
+				var user []string
+				for k := range out {
+					if strings.HasPrefix(k, "user-number ") {
+						user = append(user, strings.TrimPrefix(k, "user-number "))
+					}
+				}
+				if len(user) == 0 {
+					continue
+				}
+				sort.Strings(user)
+				n++
+				// guarded by `have >= size`
+				st := TermOf(sz, nil).String()
+				guarded := false
+				for _, g := range guardsOf(in.Block()) {
+					cond, sense := g.Cond, g.Sense
+					for {
+						u, ok := cond.(*ssa.UnOp)
+						if !ok || u.Op != token.NOT {
+							break
+						}
+						cond, sense = u.X, !sense
+					}
+					bo, ok := cond.(*ssa.BinOp)
+					if !ok {
+						continue
+					}
+					x, y, op := TermOf(bo.X, nil).String(), TermOf(bo.Y, nil).String(), bo.Op
+					if !sense {
+						switch op {
+						case token.LSS:
+							op = token.GEQ
+						case token.LEQ:
+							op = token.GTR
+						case token.GTR:
+							op = token.LEQ
+						case token.GEQ:
+							op = token.LSS
+						}
+					}
+					if (y == st && (op == token.GEQ || op == token.GTR)) || (x == st && (op == token.LEQ || op == token.LSS)) {
+						guarded = true
+					}
+				}
+				a.Check(guarded, fmt.Sprintf("%s#alloc-%s", fname(fn), st), in.Pos(),
+					"the size "+st+" (from "+strings.Join(user, ", ")+") is allocated only after a comparison showed that as many items exist",
+					"the size "+st+" comes from "+strings.Join(user, ", ")+" (a number written in the query) and is allocated with no upper bound and before that many items exist: a huge N panics (makeslice: cap out of range) or exhausts memory at Execute")
+				break
+			}
+		})
+	}
+	return n
 }
